@@ -152,9 +152,10 @@ func r4C05(c *Ctx) {
 	}
 	completed := FCmp("==", MField("Phase"), MConst(ConstVal(p.ConstObj("api/v1beta1", "RolloutPhaseCompleted"))))
 	n := 0
+	seenRet := map[*ssa.Return]bool{}
 	for _, r := range WalkCP(Entry(fn), nil, IsReturn, ReachOpts{CutInstr: isWrite}) {
 		ret := r.Instr.(*ssa.Return)
-		if ret.Block() == fn.Recover || len(ret.Results) < 2 {
+		if ret.Block() == fn.Recover || len(ret.Results) < 2 || seenRet[ret] {
 			continue
 		}
 		if v, ok := ResolveConst(ret.Results[0], r.Env); !ok || v != "false" {
@@ -164,12 +165,13 @@ func r4C05(c *Ctx) {
 			continue
 		}
 		n++
+		seenRet[ret] = true
 		fs := FactsAtInstr(ret)
 		ok := HasFact(fs, completed)
 		why := "this path answers 'done, nothing to retry' without having seen a completed BatchRelease and without any write"
 		label := "other"
 		for _, f := range fs {
-			if strings.Contains(f.String(), "IsNotFound") {
+			if fs := f.String(); strings.Contains(fs, "IsNotFound(") && strings.HasSuffix(fs, "== `true`") {
 				label = "IsNotFound"
 				why = "no BatchRelease exists (NotFound): the task answers done, but the admission webhook paused the workload when the change was admitted and only a BatchRelease's Finalize resumes it — a Rollout deleted / disabled after admission and before the first BatchRelease is created leaves the workload paused for good"
 			}
